@@ -142,7 +142,7 @@ fn worker(args: &[String]) -> Result<i32, String> {
         }
         if samples < want_samples && e.nontrivial && e.violation.is_none() {
             samples += 1;
-            writeln!(out, "S {}", sc.to_j().to_string()).ok();
+            writeln!(out, "S {}", sc.sample_j().to_string()).ok();
         }
         run += stride;
         n += 1;
